@@ -1,9 +1,195 @@
-import MontePyVerif.Model.Reader
-import MontePyVerif.Spec.Text
-/-! # C20 — files pulled in by read cards are merged exactly once, in the right block -/
+import MontePyVerif.Lemmas.Queue
+import MontePyVerif.Lemmas.Paths
+/-!
+# C20 — files pulled in by read cards are merged exactly once, in the right block
+
+Part 1 (this section): the queue mechanics of the model, for **every** file system, top-level file and nesting.
+`readAll` is `read_input_syntax` consumed to the end; `serve` is one turn of `while reading_queue:`;
+`gens` serves generation after generation.  Part 2 (below) lifts this to the Spec (`Spec.flatten`).
+-/
 namespace MontePyVerif.C20
 open MontePyVerif.Reader
 
-theorem C20_stub : readAll 128 0 (fun _ => none) [] = [.openFile [], .raise .fileNotFound] := rfl
+/-- the events of the top-level file after its front matter -/
+def mainEvents (ll : Nat) (main : Str) (bytes : List Nat) : List Event :=
+  readData ⟨ll, .cell, main, [main]⟩ (readFrontMatters (fileLines bytes)).2
+
+/-- message block and title -/
+def frontEvents (bytes : List Nat) : List Event := (readFrontMatters (fileLines bytes)).1
+
+/-- read cards are nested at most `d` deep below the top-level file (the generation `d` levels down is empty) -/
+def Nesting (ll : Nat) (fs : FS) (main : Str) (bytes : List Nat) (d : Nat) : Prop :=
+  DiesOut ll fs (dirname main) d (enqueued (mainEvents ll main bytes))
+
+/-- the read cards that get served, in the order they are served -/
+def servedCards (ll : Nat) (fs : FS) (main : Str) (bytes : List Nat) (d : Nat) : List QEntry :=
+  served ll fs (dirname main) d (enqueued (mainEvents ll main bytes))
+
+/-- fuel that suffices: the number of read cards served -/
+def enoughFuel (ll : Nat) (fs : FS) (main : Str) (bytes : List Nat) (d : Nat) : Nat :=
+  (servedCards ll fs main bytes d).length
+
+/-- **C20_queue**: the first-in-first-out queue is generation-wise merging: the top-level file, then the files
+    named in it in the order of the cards, then the files named in those, …; everything stops at the first raise. -/
+theorem C20_queue (ll : Nat) (fs : FS) (main : Str) (bytes : List Nat) (d extra : Nat)
+    (hm : fs main = some bytes) (hd : Nesting ll fs main bytes d) :
+    readAll ll (extra + enoughFuel ll fs main bytes d) fs main =
+      .openFile main :: (frontEvents bytes ++
+        cut (mainEvents ll main bytes ++ serveAll ll fs (dirname main) (servedCards ll fs main bytes d))) := by
+  unfold readAll
+  rw [hm]
+  simp only
+  have hq := queueLoop_gens ll fs (dirname main) d (enqueued (mainEvents ll main bytes)) extra hd
+  unfold enoughFuel servedCards
+  unfold fuelFor at hq
+  unfold mainEvents at hq ⊢
+  unfold frontEvents
+  cases hfm : readFrontMatters (fileLines bytes) with
+  | mk front rest =>
+    simp only [hfm] at hq ⊢
+    congr 2
+    rw [cut_append, hq, gens_eq_served]
+    split
+    · rename_i h; rw [cut_readData]
+    · rfl
+
+/-- **C20_term** (fuel sufficiency): any fuel beyond the number of cards served gives the same run, and the run
+    does not end for lack of fuel. -/
+theorem C20_term (ll : Nat) (fs : FS) (main : Str) (bytes : List Nat) (d extra : Nat)
+    (hm : fs main = some bytes) (hd : Nesting ll fs main bytes d) :
+    readAll ll (extra + enoughFuel ll fs main bytes d) fs main =
+      readAll ll (enoughFuel ll fs main bytes d) fs main := by
+  have h0 := C20_queue ll fs main bytes d 0 hm hd
+  rw [Nat.zero_add] at h0
+  rw [C20_queue ll fs main bytes d extra hm hd, h0]
+
+/-- **C20_once**: in a run without error, the files read after the top-level file are exactly the read cards met
+    during the whole run — each served once, in the order they were met, and nothing else is served. -/
+theorem C20_once (ll : Nat) (fs : FS) (main : Str) (bytes : List Nat) (d extra : Nat)
+    (hm : fs main = some bytes) (hd : Nesting ll fs main bytes d)
+    (hok : hasRaise (readAll ll (extra + enoughFuel ll fs main bytes d) fs main) = false) :
+    ∃ S : List QEntry,
+      readAll ll (extra + enoughFuel ll fs main bytes d) fs main =
+        .openFile main :: (frontEvents bytes ++ (mainEvents ll main bytes ++ serveAll ll fs (dirname main) S))
+      ∧ S = enqueued (mainEvents ll main bytes ++ serveAll ll fs (dirname main) S) := by
+  refine ⟨servedCards ll fs main bytes d, ?_, ?_⟩
+  · have h := C20_queue ll fs main bytes d extra hm hd
+    rw [h] at hok ⊢
+    rw [hasRaise_cons, hasRaise_append, hasRaise_cut] at hok
+    have : hasRaise (mainEvents ll main bytes ++ serveAll ll fs (dirname main) (servedCards ll fs main bytes d)) = false := by
+      cases hh : hasRaise (mainEvents ll main bytes ++ serveAll ll fs (dirname main) (servedCards ll fs main bytes d)) <;> simp_all
+    rw [cut_of_noRaise this]
+  · unfold servedCards
+    rw [enqueued_append, ← gens_eq_served, ← served_eq_enqueued _ _ _ _ _ hd]
+
+/-- **C20_paths**: the files opened are the top-level file and, for every card served, `join(dirname(top), name)`:
+    the working directory does not enter. -/
+theorem C20_paths (ll : Nat) (fs : FS) (main : Str) (bytes : List Nat) (d extra : Nat)
+    (hm : fs main = some bytes) (hd : Nesting ll fs main bytes d) :
+    opened (readAll ll (extra + enoughFuel ll fs main bytes d) fs main) <+:
+      main :: (servedCards ll fs main bytes d).map (fun e => joinPath (dirname main) e.name) := by
+  rw [C20_queue ll fs main bytes d extra hm hd]
+  have hfront : opened (frontEvents bytes) = [] := by
+    unfold frontEvents readFrontMatters
+    cases fileLines bytes with
+    | nil => rfl
+    | cons l0 rest =>
+      simp only
+      split
+      · generalize [rstrip l0] = raw
+        generalize [List.drop 9 l0] = ls
+        induction rest generalizing raw ls with
+        | nil => rfl
+        | cons l rest ih =>
+          unfold messageLoop
+          split
+          · exact ih _ _
+          · cases rest <;> rfl
+      · rfl
+  simp only [opened, opened_append, hfront, List.nil_append]
+  refine List.prefix_cons_inj main |>.mpr ?_
+  refine (opened_cut_prefix _).trans ?_
+  rw [opened_append, opened_serveAll]
+  unfold mainEvents
+  rw [opened_readData]
+  exact List.prefix_refl _
+
+/-- **C20_missing**: a read card that is served and names a file that does not exist makes the run end in an
+    error — never silence. -/
+theorem C20_missing (ll : Nat) (fs : FS) (main : Str) (bytes : List Nat) (d extra : Nat)
+    (hm : fs main = some bytes) (hd : Nesting ll fs main bytes d)
+    (e : QEntry) (he : e ∈ servedCards ll fs main bytes d) (habs : fs (joinPath (dirname main) e.name) = none) :
+    hasRaise (readAll ll (extra + enoughFuel ll fs main bytes d) fs main) = true := by
+  rw [C20_queue ll fs main bytes d extra hm hd, hasRaise_cons, hasRaise_append, hasRaise_cut, hasRaise_append]
+  have : hasRaise (serveAll ll fs (dirname main) (servedCards ll fs main bytes d)) = true := by
+    unfold serveAll hasRaise
+    rw [List.any_flatMap]
+    apply List.any_eq_true.mpr
+    exact ⟨e, he, by rw [serve_missing _ _ _ _ habs]; rfl⟩
+  simp [this]
+
+/-- … and when it is the first thing that goes wrong, the error is `FileNotFoundError`. -/
+theorem C20_missing_error (ll : Nat) (fs : FS) (main : Str) (bytes : List Nat) (d extra : Nat)
+    (hm : fs main = some bytes) (hd : Nesting ll fs main bytes d)
+    (pre post : List QEntry) (e : QEntry) (hs : servedCards ll fs main bytes d = pre ++ e :: post)
+    (habs : fs (joinPath (dirname main) e.name) = none)
+    (hfront : firstRaise (frontEvents bytes) = none)
+    (hpre : hasRaise (mainEvents ll main bytes ++ serveAll ll fs (dirname main) pre) = false) :
+    firstRaise (readAll ll (extra + enoughFuel ll fs main bytes d) fs main) = some .fileNotFound := by
+  rw [C20_queue ll fs main bytes d extra hm hd, hs]
+  have h1 : serveAll ll fs (dirname main) (pre ++ e :: post) =
+      serveAll ll fs (dirname main) pre ++ (serve ll fs (dirname main) e ++ serveAll ll fs (dirname main) post) := by
+    simp [serveAll]
+  rw [h1, ← List.append_assoc]
+  have hp := (firstRaise_none_iff _).mpr hpre
+  rw [firstRaise_append] at hp
+  simp only [firstRaise, firstRaise_append, hfront, firstRaise_cut]
+  rw [hp, serve_missing _ _ _ _ habs]
+  rfl
+
+/-- `open(path)` as the operating system resolves it from the working directory `cwd`, on a disk whose files
+    are known by absolute path -/
+def fsFrom (disk : FS) (cwd : Str) : FS := fun p => if isAbs p then disk p else disk (joinPath cwd p)
+
+/-- **C20_paths_cwd**: for a top-level file given by absolute path the whole run — which files are opened and what
+    is read — is the same from every working directory (sub-files are looked up next to the top-level file). -/
+theorem C20_paths_cwd (ll fuel : Nat) (disk : FS) (cwd1 cwd2 main : Str) (h : isAbs main = true) :
+    readAll ll fuel (fsFrom disk cwd1) main = readAll ll fuel (fsFrom disk cwd2) main := by
+  unfold readAll
+  have hm : fsFrom disk cwd1 main = fsFrom disk cwd2 main := by simp [fsFrom, h]
+  rw [hm]
+  cases fsFrom disk cwd2 main with
+  | none => rfl
+  | some bytes =>
+    simp only
+    rw [queueLoop_congr ll (fsFrom disk cwd1) (fsFrom disk cwd2) (dirname main) (isAbs_dirname main h)
+      (fun p hp => by simp [fsFrom, hp])]
+
+/-! ### non-vacuity: a concrete tree of files (top-level `d/m`: title, a read card, a cell; `d/a` reads `d/b`) -/
+
+/-- `"t\nread file=a\n2 0\n"` -/
+def exMain : List Nat := [116, 10, 114, 101, 97, 100, 32, 102, 105, 108, 101, 61, 97, 10, 50, 32, 48, 10]
+/-- `"1 0\nREAD FILE b\n"` -/
+def exA : List Nat := [49, 32, 48, 10, 82, 69, 65, 68, 32, 70, 73, 76, 69, 32, 98, 10]
+/-- `"3 0\n"` -/
+def exB : List Nat := [51, 32, 48, 10]
+def exFs : FS := fun p =>
+  if p = ['d', '/', 'm'] then some exMain else if p = ['d', '/', 'a'] then some exA
+  else if p = ['d', '/', 'b'] then some exB else none
+/-- the same tree with `d/b` missing -/
+def exFsMissing : FS := fun p => if p = ['d', '/', 'b'] then none else exFs p
+
+example : Nesting 128 exFs ['d', '/', 'm'] exMain 2 := by unfold Nesting; decide
+example : ¬ Nesting 128 exFs ['d', '/', 'm'] exMain 1 := by unfold Nesting; decide
+example : (servedCards 128 exFs ['d', '/', 'm'] exMain 3).map (·.name) = [['a'], ['b']] := by decide
+example : hasRaise (readAll 128 2 exFs ['d', '/', 'm']) = false := by decide
+/-- the merged order: own inputs of the top file, then `a`'s, then `b`'s — all in the cell block -/
+example : (readAll 128 2 exFs ['d', '/', 'm']).filterMap (fun | .input bt ls => some (bt, ls) | _ => none) =
+    [(.cell, [['2', ' ', '0']]), (.cell, [['1', ' ', '0']]), (.cell, [['3', ' ', '0']])] := by decide
+example : opened (readAll 128 2 exFs ['d', '/', 'm']) = [['d', '/', 'm'], ['d', '/', 'a'], ['d', '/', 'b']] := by decide
+example : Nesting 128 exFsMissing ['d', '/', 'm'] exMain 3 := by unfold Nesting; decide
+example : firstRaise (readAll 128 2 exFsMissing ['d', '/', 'm']) = some .fileNotFound := by decide
+/-- too little fuel is visible as such (and `C20_term` says when it cannot happen) -/
+example : firstRaise (readAll 128 1 exFs ['d', '/', 'm']) = some .outOfFuel := by decide
 
 end MontePyVerif.C20
